@@ -1847,7 +1847,7 @@ write_module(ostream &out, ostream *out_h, InterrogateModuleDef *def) {
       << "extern \"C\" EXPORT_CLASS PyObject *PyInit_" << def->module_name << "();\n"
       << "\n"
       << "PyObject *PyInit_" << def->module_name << "() {\n"
-      << "  LibraryDef *refs[] = {&" << def->library_name << "_moddef, nullptr};\n"
+      << "  const LibraryDef *refs[] = {&" << def->library_name << "_moddef, nullptr};\n"
       << "  PyObject *module = Dtool_PyModuleInitHelper(refs, &python_native_module);\n"
       << "  Dtool_" << def->library_name << "_BuildInstants(module);\n"
       << "  return module;\n"
@@ -1858,7 +1858,7 @@ write_module(ostream &out, ostream *out_h, InterrogateModuleDef *def) {
       << "extern \"C\" EXPORT_CLASS void init" << def->module_name << "();\n"
       << "\n"
       << "void init" << def->module_name << "() {\n"
-      << "  LibraryDef *refs[] = {&" << def->library_name << "_moddef, nullptr};\n"
+      << "  const LibraryDef *refs[] = {&" << def->library_name << "_moddef, nullptr};\n"
       << "  PyObject *module = Dtool_PyModuleInitHelper(refs, \"" << def->module_name << "\");\n"
       << "  Dtool_" << def->library_name << "_BuildInstants(module);\n"
       << "}\n"
